@@ -526,11 +526,20 @@ Proof.
   rewrite rb0. red1. reflexivity.
 Qed.
 
-Lemma wf_fixed_of s : wf_splice_info s -> len (si_pointer s) < 255 -> wf_fixed s.
+Lemma wf_fixed_of s : wf_decode s -> len (si_pointer s) < 255 -> wf_fixed s.
 Proof.
-  intros (Hpb & Hpl & _ & Hsap & Hpv & Hea & Hadj & Hcw & Htier & Hcmd & Hcl & Hds & Hdl & Hst & Hcrc & Hsl) Hp.
+  intros (Hsap & Hea & Hadj & Htier & Hcmd & Hcl & Hds & Hdl & Hsl) Hp.
   repeat split; assumption.
 Qed.
+Lemma wf_decode_of s : wf_splice_info s -> wf_decode s.
+Proof.
+  intros (Hpb & Hpl & _ & Hsap & Hpv & Hea & Hadj & Hcw & Htier & Hcmd & Hcl & Hds & Hdl & Hst & Hcrc & Hsl).
+  repeat split; assumption.
+Qed.
+
+Lemma supported_of_wf s : wf_splice_info s -> si_table_id s = 252 -> si_encrypted s = false ->
+  len (si_pointer s) < 255 -> supported_cmd (si_cmd s) -> supported s.
+Proof. intros H1 H2 H3 H4 H5. repeat split; try assumption; apply wf_decode_of; assumption. Qed.
 
 Lemma data_fuel s : (length (ser_descriptors (si_descs s)) <= length (ser_splice_info s))%nat.
 Proof.
@@ -541,7 +550,7 @@ Theorem decode_ser s : supported s -> new_scte35 (ser_splice_info s) = Ok (expec
 Proof.
   intros (Hwf & Htid & Henc & Hptr & Hsup).
   rewrite parse_table_fixed by (try assumption; apply wf_fixed_of; assumption).
-  destruct Hwf as (Hpb & Hpl & _ & Hsap & Hpv & Hea & Hadj & Hcw & Htier & Hcmd & Hcl & Hds & Hdl & Hst & Hcrc & Hsl).
+  destruct Hwf as (Hsap & Hea & Hadj & Htier & Hcmd & Hcl & Hds & Hdl & Hsl).
   destruct (parse_command_ser (si_cmd s) (si_pts_adj s) (sec_tail s) (Some (command_type (si_cmd s))) Hcmd Hsup Hadj) as [l1 E1].
   rewrite E1. red1. unfold sec_tail.
   rewrite parse_descriptors_ser; try assumption.
